@@ -196,8 +196,8 @@ def decomp (c : Case) : Verdict :=
     -- most declared + 1 bytes are pulled from the decoder (`decompress_reads_bounded`); what remains is the decoder's
     -- own state (measured ≤ 4.5 MiB for brotli, zlib and zstd on 8-64 MiB bombs). 8 MiB or more means the stream,
     -- not the limit, drives the allocation.
-    -- (`zwin`: the frame header itself declares the decoder's window; uTLS caps it at 8 MiB, and what is
-    -- demanded there is `alloc-class-more` above: never 32 MiB or more)
+    -- (`zwin`: the frame header itself declares the decoder's window, which the decoder allocates whatever uTLS
+    -- pulls from it; what is demanded there is `alloc-class-more` above: never 32 MiB or more — open finding D34)
     if decl ≤ maxHandshakeCert ∧ content ≠ "zwin" ∧ o.getD "alloc8" "0" = "1" then
       .propFail tag s!"alloc-driven-by-decompressed-stream (≥ 8 MiB allocated in decompressCert, declared {decl}, stream {plain})"
     else
